@@ -3,7 +3,7 @@
 From Coq Require Import ZArith List Ascii Bool NArith Lia.
 From Cspuz Require Import Lib.PyErr Codec.Comb Codec.CombWf Codec.CombBasics Codec.CombLeaf Codec.CombRoundTrip
   Codec.Puzzles Codec.TotalModel Codec.TotalLeaf Codec.Total Codec.TotalDims Codec.TotalRedecode
-  Codec.TotalReencLeaf Codec.TotalReenc Codec.TotalReencRooms Gen.Codecs.
+  Codec.TotalReencModel Codec.TotalReencLeaf Codec.TotalReenc Codec.TotalReencRooms Gen.Codecs.
 Import ListNotations.
 Local Open Scope Z_scope.
 
